@@ -8,8 +8,12 @@ THEOREMS = ["Mmtk.Sched.exit_only_on_request", "Mmtk.Sched.exit_once", "Mmtk.Sch
             "Mmtk.Sched.goal_completed_once", "Mmtk.Sched.no_work_lost_frame", "Mmtk.Sched.no_work_lost",
             "Mmtk.Sched.respawn_restores", "Mmtk.Sched.gc_after_fork", "Mmtk.Sched.step_invE", "Mmtk.Sched.step_invF",
             "Mmtk.Sched.step_other_exsu",
-            "Mmtk.Sched.workers_exit_under_fairness", "Mmtk.Sched.workers_exit_after_goal", "Mmtk.Sched.exit_hypotheses_satisfiable", "Mmtk.Sched.step_late_stable"]
-KEYS = S.COMMON_KEYS + ("sched:surrender", "sched:exit-not-once", "sched:respawn-count", "sched:not-quiescent")
+            "Mmtk.Sched.workers_exit_under_fairness", "Mmtk.Sched.workers_exit_after_goal", "Mmtk.Sched.exit_hypotheses_satisfiable", "Mmtk.Sched.step_late_stable",
+            # the exit request arrives while a GC is pending or in progress
+            "Mmtk.Sched.exit_request_survives_gc", "Mmtk.Sched.workers_exit_under_fairness_during_gc",
+            "Mmtk.Sched.exit_during_gc_hypotheses_satisfiable", "Mmtk.Sched.onLastParked_completing",
+            "Mmtk.Sched.onLastParked_keeps_exit_reqs", "Mmtk.Sched.gcPending_exitReq_step", "Mmtk.Sched.creation_prepared_step"]
+KEYS = S.COMMON_KEYS + S.STOP_KEYS + ("sched:surrender", "sched:exit-not-once", "sched:respawn-count", "sched:not-quiescent")
 
 META = {
     "text": "Lean model Model/Sched.lean with the goals StopForFork/Shutdown, WorkerCreationState and the pool of surrendered "
@@ -25,10 +29,15 @@ META = {
             "event must be the model's action; the GCs after the fork must again be runs of the model.",
     "note": "That every worker *does* exit is proved under weak fairness (workers_exit_after_goal: once an exit goal is current "
             "every worker reaches `surrendered`; workers_exit_under_fairness: from a pending Shutdown/StopForFork request with no "
-            "GC requested meanwhile) — the sub-case 'a GC is pending or in progress when the exit request arrives' needs one "
-            "more lemma (the request survives `respond`) and is covered by gc_completes_under_fairness + the watchdog oracle on "
-            "real runs. hx_gc has no "
-            "`shutdown` op: the Shutdown goal is covered by the proof (same code path as StopForFork) but not by real runs.",
+            "GC requested meanwhile; workers_exit_under_fairness_during_gc: the request is pending while a Gc request is pending "
+            "or a GC is in progress — the GC completes first (gc_request_completes, C14), the completing park of the last parker "
+            "either starts the exit goal or, with concurrent work scheduled, leaves the request pending with every worker woken "
+            "(exit_request_survives_gc), and then all n workers surrender; hypothesis: no further Gc request after that GC). "
+            "Real runs: `fork` between collections, `forkgc` (prepare_to_fork from inside stop_all_mutators / "
+            "scan_vm_specific_roots / process_weak_refs on the GC thread, or at resume_mutators from a helper thread) followed by "
+            "further GCs and fork cycles, and Shutdown through memory_manager::mmtk_shutdown (`shutdown`, `shutdowngc`; terminal: "
+            "this version has no way to respawn after Shutdown). Oracles: every worker exits and surrenders exactly once per "
+            "request, nobody exits while the Gc goal is current, every request is served, all threads are joined.",
     "technique": "Lean 4 proof: inductive invariants of an n-thread model; event-log conformance monitor over fork cycles",
     "category": "proof",
 }
@@ -45,6 +54,8 @@ def build_programs(rng, tier):
                             forks=forks)
         progs.append(S.Prog(f"f{i}-{plan}-w{w}-x{forks}", plan, w, body, yseed=0 if i % 2 else rng.randrange(1, 1 << 30),
                             tags={"fork"}))
+    # the stop request arrives DURING a collection (seeded regression C16 = C14: the request is lost at the end of the GC)
+    progs += S.forkgc_programs(rng, 16 if tier == "quick" else 200)
     return progs
 
 
